@@ -530,6 +530,7 @@ func (vc *VC) dryRun(st *State, f func(s *State)) []string {
 	w := sortedKeys(vc.written)
 	vc.written = saveWritten
 	vc.trace = vc.trace[:saveTrace]
+	vc.labels = vc.labels[:saveTrace]
 	vc.obls = vc.obls[:saveObls]
 	vc.counts = saveCounts
 	vc.blocking = vc.blocking[:saveBlocking]
@@ -607,7 +608,9 @@ func (vc *VC) assumeInvariants(st *State, lc *loopCtx, entry *State) {
 	b := vc.bindLoopSpec(st, lc.spec, lc.fi, lc.pos)
 	for _, c := range lc.spec.Clauses {
 		if c.Kind == "invariant" {
+			vc.curLabel = fmt.Sprintf("inv.loop%d.%s", lc.ord, c.Name)
 			vc.assume(st, vc.evalClause(st, lc.spec, c.Expr, entry))
+			vc.curLabel = ""
 		}
 	}
 	vc.unbind(b)
